@@ -99,6 +99,13 @@ class Outcome(object):
 class SymE(object):
     mode = "symbolic"
 
+    @property
+    def RUN_REAL(self):
+        """returned by a contract summary to let the real callee body run for this call"""
+        from .core import _NOHOOK
+
+        return _NOHOOK
+
     def __init__(self, engine, interp):
         self.e = engine
         self.ip = interp
@@ -373,7 +380,10 @@ class SymE(object):
         self.e.axiom(self.sin(a + self.tau * k) == self.sin(a))
 
     def floor(self, x):
-        return SV(z3.ToInt(to_real(x).t), "int")
+        q = self.e.fresh_int("sfloor")
+        x = to_real(x)
+        self.e.axiom(z3.And(z3.ToReal(q.t) <= x.t, x.t < z3.ToReal(q.t) + 1))
+        return q
 
 
 # ------------------------------------------------------------------------------------------------
